@@ -46,6 +46,12 @@ def reference(op, v1, v2, a, b, n, dts):
         elif op in ('div', 'idiv', 'divide'):
             r = X1 / X2
             m = np.abs(r)
+        elif op == 'rsub':
+            r = X2 - X1
+            m = np.abs(X1) + np.abs(X2)
+        elif op == 'rdiv':
+            r = X2 / X1
+            m = np.abs(r)
         elif op in ('smul', 'rsmul', 'ismul'):
             r = A * X1
             m = np.abs(r)
